@@ -418,7 +418,23 @@ func (sdb *DbSqlite) initJwtKey() error {
 	return nil
 }
 
+// checkPointValues returns an error if a point value can't be stored. SQLite
+// stores NaN as NULL, which can't be read back.
+func checkPointValues(points data.Points) error {
+	for _, p := range points {
+		if math.IsNaN(p.Value) {
+			return fmt.Errorf("Error: point %v value is NaN", p.Type)
+		}
+	}
+
+	return nil
+}
+
 func (sdb *DbSqlite) nodePoints(id string, points data.Points) error {
+	if err := checkPointValues(points); err != nil {
+		return err
+	}
+
 	points.Collapse()
 
 	sdb.writeLock.Lock()
@@ -559,6 +575,10 @@ NextPin:
 }
 
 func (sdb *DbSqlite) edgePoints(nodeID, parentID string, points data.Points) error {
+	if err := checkPointValues(points); err != nil {
+		return err
+	}
+
 	points.Collapse()
 
 	if nodeID == parentID {
